@@ -50,6 +50,9 @@ impl Spec {
                     for i in 0..(m as u64 + 3) {
                         s.hash_item(0xABCD_0000 + i, 1.0 + i as f64);
                     }
+                    if let Some((d, w)) = items.first() {
+                        s.hash_item(*d, w.0);
+                    }
                     s.reset();
                     for (d, w) in items {
                         s.hash_item(*d, w.0);
@@ -84,7 +87,11 @@ impl Spec {
             Spec::Unw { kind, m, ss, items, pres } => {
                 let mut s = make(*kind, *m, ss);
                 if recycled {
-                    let junk: Vec<u64> = (0..(2 * *m as u64 + 5)).map(|i| splitmix64(0xD15EA5E ^ i)).collect();
+                    // unrelated items, ending with the item that will come first after the reinit
+                    let mut junk: Vec<u64> = (0..(2 * *m as u64 + 5)).map(|i| splitmix64(0xD15EA5E ^ i)).collect();
+                    if let Some(first) = pres.stream(items).first() {
+                        junk.push(*first);
+                    }
                     s.slice(&junk);
                     s.reinit();
                 }
@@ -112,7 +119,8 @@ impl Spec {
             }
             Spec::Ord { m, l, wy, seq } => {
                 let data: Vec<u64> = seq.iter().map(|x| 7000 + *x as u64).collect();
-                let junk: Vec<u64> = (0..(*l as u64 + 7)).map(|i| 7000 + (i * 5) % 11).collect();
+                let mut junk: Vec<u64> = (0..(*l as u64 + 7)).map(|i| 7000 + (i * 5) % 11).collect();
+                junk.push(data[0]);
                 if *wy {
                     let mut h = ProbOrdMinHash2::<WyHash>::new(*m, *l);
                     if recycled {
